@@ -23,6 +23,26 @@ INF = math.inf
 # ----------------------------------------------------------------------------- models
 def make_margin(desc):
     kind = desc[0]
+    if kind == "stepinf":
+        # a dyadic step measure PLUS infinite mass in every neighbourhood of 0 (both sides): integrate over an interval that touches 0
+        # is +inf, everything else is the exact step integral.  Gives U_i(0) = +inf with exact arithmetic elsewhere.
+        from stepmeasure import StepMeasure, StepModel
+
+        class InfAtZeroStep(StepMeasure):
+            def integrate(self, a, b):
+                if a > b:
+                    raise ValueError("Expected a<b when integrating the levy measure")
+                if a <= 0 <= b and a < b:
+                    return math.inf
+                return super().integrate(a, b)
+
+            def jump_of_finite_activity(self):
+                return False
+        breaks = [Fraction(b) for b in desc[1][0]]
+        dens = [Fraction(d) for d in desc[1][1]]
+        m = StepModel(InfAtZeroStep(breaks, dens))
+        m.r = 0.0
+        return m
     if kind == "step":
         from stepmeasure import StepMeasure, StepModel
         breaks = [Fraction(b) for b in desc[1][0]]
